@@ -137,6 +137,21 @@ def decide(prop, tier, seed):
         if isinstance(main, tuple):
             undecided.append(f'{un}: {main[0]}: {main[1]}')
             continue
+        if main.front_end_error and getattr(main.unit_obj, 'sig_mismatch', None):
+            # the contract of a function no longer type-checks because its return type was changed: the postcondition cannot be
+            # stated against the new type, i.e. it cannot hold as written
+            hit = False
+            for (fq, want, got) in main.unit_obj.sig_mismatch:
+                ef = next((f for f in main.g.fns if f.qual == fq), None)
+                if ef is not None and (prop in ef.props):
+                    failures.append((un, verus.Failure(fq, 'signature', 'return_type_changed',
+                                                       f'contract written for return type `{want}`, the function now returns `{got}` and the contract no longer type-checks: ' + main.front_end_error[:300].replace('\n', ' | '),
+                                                       ef.src_lines, f'-> {got}', [])))
+                    obligations += 1
+                    hit = True
+            if hit:
+                checker_cmds.append(main.cmd)
+                continue
         if main.front_end_error:
             undecided.append(f'{un}: verus front end rejected the generated file (unsupported construct / type error): ' + main.front_end_error[:600].replace('\n', ' | '))
             continue
@@ -149,7 +164,7 @@ def decide(prop, tier, seed):
         for a in scan_assumptions(g.text):
             trusted.append(f'{un}: {a}')
         for r in g.rewrites:
-            rewrites.append(f"{un}: {r['item']}: `{r['old'] if r['old'] is not None else '<whole arm body>'}` -> `{r['new']}` x{r['count']} ({r['reason']})")
+            rewrites.append(f"{un}: {r['item']}: `{r['old'] if r['old'] is not None else '<whole arm body>'}` -> `{' '.join(str(r['new']).split())[:200]}` x{r['count']} ({r['reason']})")
         # failures by function
         fail_by_fn = {}
         for f in main.failures:
